@@ -238,6 +238,8 @@ func Catalogue() []Adapter {
 	for _, g := range []Geometry{G4_29, G4_29hi} {
 		out = append(out, epochAdapter(g, 1), epochAdapter(g, 2))
 	}
+	out = append(out, epochAdapter(G4_30, 1)) // two usable addresses: three subscribers fill the pool and find it full
+
 	for _, g := range []Geometry{G4_29, G6_61} {
 		out = append(out, distributedAdapter(g, "session", 0))
 	}
